@@ -353,6 +353,21 @@ def check_observed(ctx, spec, obj, tol, where):
         ep = np.asarray(obj.get_endpoints().proj_data)
         ctx.close("get_endpoints() returns the current endpoints (%s)" % where, ep, P, rtol=0,
                   atol=0)
+    elif spec.name == "tangent":
+        # the accessors: .point is the basepoint, .vector the *projected* vector (tangent at
+        # the basepoint), a positive multiple of the projection of the primary vector
+        p = Pr[..., 0, :].astype(float)
+        v = Pr[..., 1, :].astype(float)
+        w = v - (mink(v, p) / mink(p, p))[..., None] * p
+        got = np.real(np.asarray(obj.vector)).astype(float)
+        nw = np.sqrt(np.sum(w * w, axis=-1))
+        ok = nw > 1e-9
+        ctx.small(".vector is the projection of the primary vector (%s)" % where,
+                  np.where(ok, proj_dist(got, w), 0.0), max(tol, 1e-9) * 50)
+        ctx.check(np.all(np.where(ok, np.sum(got * w, axis=-1), 1.0) > 0),
+                  ".vector points the way the primary vector does (%s)" % where)
+        ctx.small(".point is the basepoint (%s)" % where,
+                  proj_dist(np.real(np.asarray(obj.point)).astype(float), p), max(tol, 1e-12))
 
 
 def klein_of(P):
@@ -638,6 +653,20 @@ def run_history(case, ctx):
                               atol=0)
                     add(Entry(Z, e.tol), j + 1)
                     labels_mut = True
+            elif op in ("setitem_array", "setitem_object") and (len(shape) == 0 or kk % 3 == 2):
+                # the whole object given new coordinates through the documented setter: the
+                # same object, new primary data, and derived data that belong to them
+                val = spec.data(vals, shape, off=2)
+                if spec.hyperbolic and j % 2:
+                    X.coords("projective", val.copy())
+                else:
+                    X.projective_coords(val.copy())
+                ctx.close("the coordinate setter replaces the primary data",
+                          np.asarray(X.proj_data).astype(float), val, rtol=max(e.tol, 1e-12),
+                          atol=max(e.tol, 1e-12))
+                e.tol = 1e-9
+                labels_mut = True
+                ctx.label("coords-setter")
             elif op in ("setitem_array", "setitem_object"):
                 if len(shape) >= 1:
                     if len(shape) >= 2 and kk % 2:
